@@ -62,8 +62,22 @@ FullOK(st, e) ==
   /\ e.valid                             \* validate() of the real sketch
   /\ CountOK(st) /\ OffsetOK(st) /\ FicSound(st) /\ ShapeOK(st)
 
+\* C01 (advertised spread): the one-sigma bounds are estimate / (1 +- e) with e the relative standard
+\* error of the estimator in use: sqrt(ln 2 / 2)/sqrt(k) for HIP, ln 2/sqrt(k) for ICON (merged sketches);
+\* 10^-6 units. The empirical constants used for lg_k <= 14 lie within 1% (HIP), 4% (ICON, lg_k >= 8)
+\* and 16% (ICON, lg_k < 8) of these.
+CpcRse6(lgk, merged) ==
+  LET t == IF lgk % 2 = 0 THEN (IF merged THEN 693147 ELSE 588705)
+           ELSE (IF merged THEN 490129 ELSE 416277)            \* divided by sqrt 2
+  IN t \div P2(lgk \div 2)
+CpcRelOK(st, o) ==
+  o.big => LET e == CpcRse6(st.lgk, st.merged)
+               tol == IF st.merged /\ st.lgk < 8 THEN 17 ELSE 4 IN
+           \A i \in 1..2 : /\ o.rel[i] * 100 >= (100 - tol) * e
+                             /\ o.rel[i] * 100 <= (100 + tol) * e
+
 ObsOK(st, o) ==
-  /\ On("C01") => NonDecreasing(o.b)
+  /\ On("C01") => (NonDecreasing(o.b) /\ CpcRelOK(st, o))
   /\ (On("C05") \/ On("C06")) => (o.emp = (st.c = 0) /\ o.c = st.c)
 
 TInit == l = 1 /\ obj = <<>> /\ bits = <<>> /\ uni = <<>> /\ ubits = <<>>
